@@ -1,0 +1,15 @@
+//go:build verif
+
+package forwarder
+
+import "github.com/ThreeDotsLabs/watermill/message"
+
+// VerifWrapMessageInEnvelope exposes wrapMessageInEnvelope to verification harnesses (build tag "verif" only).
+func VerifWrapMessageInEnvelope(destinationTopic string, msg *message.Message) (*message.Message, error) {
+	return wrapMessageInEnvelope(destinationTopic, msg)
+}
+
+// VerifUnwrapMessageFromEnvelope exposes unwrapMessageFromEnvelope to verification harnesses (build tag "verif" only).
+func VerifUnwrapMessageFromEnvelope(msg *message.Message) (destinationTopic string, unwrappedMsg *message.Message, err error) {
+	return unwrapMessageFromEnvelope(msg)
+}
